@@ -36,6 +36,11 @@ import (
 // (4) at quiescence never two live streams that both tick; (5) after Stop/RemoveEntity returned no
 // refresh completes that provably STARTED after the return (a refresh that follows, on the same stream
 // goroutine, one that completed after the return); (6) no call panics, no process-level panic.
+//
+// In every second case a "mute" peer (x_mute.go: SetupRemoteDevice with a nil writer, every send to it fails)
+// subscribed to the DeviceDiagnosis feature before the observed peer: its send fault must not cost the observed
+// peer any refresh (oracle 3). The seq part also removes entities that are not in the device's entity list while
+// their heartbeat runs (histories "restart-after-remove" and "never-added"), judged by oracle (5).
 
 var c16Timeouts = []time.Duration{100 * time.Millisecond, 300 * time.Millisecond, time.Second, 2500 * time.Millisecond, 4 * time.Second}
 
@@ -43,19 +48,24 @@ func init() {
 	rig.Register(&rig.Check{
 		ID:    "C16",
 		Floor: 12,
-		Rule: "seq: case = timeout (all five in turn) x a generated history of bursts of AddFunctionType(heartbeat)/StartHeartbeat/StopHeartbeat/IsHeartbeatRunning/RemoveEntity calls, each burst followed by a checkpoint (running: wait for k refreshes; stopped: three periods of silence); " +
+		Rule: "seq: case = timeout (all five in turn) x a history, each burst of calls followed by a checkpoint (running: wait for k refreshes; stopped: three periods of silence). Rows of five cases: four rows of generated histories of bursts of " +
+			"AddFunctionType(heartbeat)/StartHeartbeat/StopHeartbeat/IsHeartbeatRunning/RemoveEntity calls (RemoveEntity possibly a second time after a restart), one row 'restart-after-remove' (AddEntity, add, RemoveEntity, StartHeartbeat, RemoveEntity again), " +
+			"one row 'never-added' (NewEntityLocal, add - which starts the heartbeat -, RemoveEntity without any AddEntity; observed through DataCopy). In every second case of seq, conc and slowtap a peer without write handler (every send to it fails) " +
+			"subscribed to the DeviceDiagnosis feature before the observed peer; " +
 			"conc: 4-8 goroutines with 3-6 Start/Stop/IsRunning calls each, cyclic rendezvous of two or jitter at Heartbeat.stop.afterCheck and Heartbeat.start.afterStop, then a final sequential call that makes the expectation exact, then RemoveEntity; " +
 			"slowtap: Stop issued while a refresh is being written by a writer that is slower than the period; nofeature: histories that start the heartbeat although no DeviceDiagnosis heartbeat function was added, each in a child process. " +
 			"A case is non-trivial if at least one running checkpoint (refreshes judged) and one stopped checkpoint (silence judged) were decided without a watchdog expiry. distinct = (timeout, operation sequence, hook policy).",
 		Assumptions: []string{
 			"'periodically' cannot be decided without a clock: a running heartbeat that shows no refresh within a generous watchdog makes the case inconclusive, never violated; the deciding period check is the hook record period <= announced timeout",
 			"a stopped stream may complete the one refresh that was in flight when Stop/RemoveEntity returned; a further refresh on the same stream goroutine provably started after the return and is judged",
-			"after RemoveEntity the subscriptions are gone, so refreshes are counted through the heartbeat counter in DataCopy (difference to the value sampled right after the call returned)",
+			"after RemoveEntity refreshes are counted through the heartbeat counter in DataCopy (difference to the value sampled right after the call returned) as well as on the tap: the removed entity's own subscriptions to remote features are cancelled, but the registry entries of remote subscribers to its features stay (observed: a heartbeat restarted on a removed entity is still notified), which no clause of this statement judges",
+			"'every refresh is notified to the subscribers' includes a subscriber whose entry follows that of a peer with a broken connection (the mute peer of x_mute.go, which is not observed itself); when the function data shows refreshes whose notifies never reach the observed peer, the running checkpoint stops waiting and oracle (3) (sampled refreshes vs. notifies) gives the verdict",
+			"'removal of the entity' is judged for every RemoveEntity call that returned, also when the entity is not (or no longer) in the device's entity list while its heartbeat runs (AddFunctionType starts it before AddEntity; StartHeartbeat restarts it after a removal)",
 			"the rendezvous at the two Start/Stop windows lies inside a mutex on the current tree: it expires (counted as window_closed) and is never judged",
 			"histories that call StartHeartbeat before an effective AddFunctionType run in a child process, because the stream goroutine of the current tree dereferences a nil feature at its first tick and takes the process down (reported as heartbeat/start-without-feature-panics)",
 		},
 		Parts: []rig.Part{
-			{Name: "seq", Run: c16Seq, Workers: 24, Chunk: 1, Procs: 2, Quiet: 120 * time.Second, Cases: func(t rig.Tier) int { return map[rig.Tier]int{rig.Quick: 20, rig.Thorough: 200}[t] }},
+			{Name: "seq", Run: c16Seq, Workers: 32, Chunk: 1, Procs: 2, Quiet: 120 * time.Second, Cases: func(t rig.Tier) int { return map[rig.Tier]int{rig.Quick: 30, rig.Thorough: 300}[t] }},
 			{Name: "conc", Run: c16Conc, Workers: 20, Chunk: 1, Procs: 4, Quiet: 120 * time.Second, Cases: func(t rig.Tier) int { return map[rig.Tier]int{rig.Quick: 16, rig.Thorough: 140}[t] }},
 			{Name: "conc-race", Race: true, Run: c16Conc, Workers: 16, Chunk: 1, Procs: 4, Quiet: 180 * time.Second, Cases: func(t rig.Tier) int { return map[rig.Tier]int{rig.Quick: 8, rig.Thorough: 48}[t] }},
 			{Name: "slowtap", Run: c16SlowTap, Workers: 8, Chunk: 1, Procs: 2, Quiet: 120 * time.Second, Cases: func(t rig.Tier) int { return map[rig.Tier]int{rig.Quick: 6, rig.Thorough: 16}[t] }},
@@ -195,16 +205,36 @@ type c16Env struct {
 	noGapOracle                     bool // the writer is held on purpose (slowtap)
 	runningCP, stoppedCP, undecided int
 	trace                           []string
+
+	hasPeer bool      // an observed peer subscribed to the DeviceDiagnosis feature
+	mute    *rig.Peer // a peer whose connection cannot send subscribed before the observed one (nil: none)
+	// lost: a running checkpoint saw refreshes become visible in the function data whose notifies never reached
+	// the subscribed peer's writer; it stopped waiting, oracle (3) in finish() judges them
+	lost bool
 }
 
+// c16Opt: peer = an observed peer subscribes to the DeviceDiagnosis feature; mute = a peer without write handler
+// (x_mute.go) subscribes before it; unadded = the entity is created with NewEntityLocal but never passed to
+// DeviceLocal.AddEntity (then nobody can subscribe: refreshes are observed through DataCopy only).
+type c16Opt struct{ peer, mute, unadded bool }
+
 func newC16Env(c *rig.Ctx, timeout time.Duration, withPeer bool) *c16Env {
+	return newC16EnvOpt(c, timeout, c16Opt{peer: withPeer})
+}
+
+func newC16EnvOpt(c *rig.Ctx, timeout time.Duration, opt c16Opt) *c16Env {
+	withPeer := opt.peer && !opt.unadded
 	e := &c16Env{c: c, timeout: timeout, period: timeout, start: time.Now(), streams: map[int64]*c16Stream{}, pendingPer: map[int64]time.Duration{},
 		tap: &c16Tap{entered: make(chan struct{}, 1)}, stopSample: make(chan struct{})}
 	if timeout > 2*time.Second {
 		e.period = timeout - 2*time.Second
 	}
 	e.w = rig.NewWorld(c.Tag())
-	e.ent = e.w.AddEntity(model.EntityTypeTypeCEM, []uint{1}, timeout)
+	if opt.unadded {
+		e.ent = spine.NewEntityLocal(e.w.Local, model.EntityTypeTypeCEM, spine.NewAddressEntityType([]uint{1}), timeout)
+	} else {
+		e.ent = e.w.AddEntity(model.EntityTypeTypeCEM, []uint{1}, timeout)
+	}
 	e.dd = e.ent.GetOrAddFeature(model.FeatureTypeTypeDeviceDiagnosis, model.RoleTypeServer)
 	e.hm = e.ent.HeartbeatManager()
 	e.h = rig.InstallHooks()
@@ -238,15 +268,29 @@ func newC16Env(c *rig.Ctx, timeout time.Duration, withPeer bool) *c16Env {
 		}
 		e.mu.Unlock()
 	})
+	ddClient := rig.FS{Ent: []uint{1}, Id: 1, Typ: model.FeatureTypeTypeDeviceDiagnosis, Role: model.RoleTypeClient}
+	if withPeer && opt.mute {
+		// every send to this peer fails; it subscribes first, so its entry precedes the observed peer's
+		e.mute = addMutePeer(e.w, 0)
+		if why := muteSubscribeFirst(e.w, e.mute, []rig.FS{rig.NMFS, ddClient}, []muteSub{{rig.FA(e.mute.Addr, []uint{1}, 1), e.dd.Address(), model.FeatureTypeTypeDeviceDiagnosis}}); why != "" {
+			c.Inconclusive("setup of the mute peer: %s", why)
+		}
+		c.Count("cases_with_a_mute_first_subscriber", 1)
+	}
 	if withPeer {
+		e.hasPeer = true
 		p := &rig.Peer{Ski: c.Tag() + "-ski0", Addr: "dev0", Tap: &rig.Tap{}, W: e.w, Ctr: 1000}
 		e.w.Local.SetupRemoteDevice(p.Ski, e.tap)
 		p.RD = e.w.Local.RemoteDeviceForSki(p.Ski)
 		e.w.Peers = append(e.w.Peers, p)
-		p.Announce([]rig.FS{rig.NMFS, {Ent: []uint{1}, Id: 1, Typ: model.FeatureTypeTypeDeviceDiagnosis, Role: model.RoleTypeClient}})
+		p.Announce([]rig.FS{rig.NMFS, ddClient})
 		p.Subscribe(rig.FA(p.Addr, []uint{1}, 1), e.dd.Address(), model.FeatureTypeTypeDeviceDiagnosis)
-		if n := len(e.w.Local.SubscriptionManager().SubscriptionsOnFeature(*e.dd.Address())); n != 1 {
-			c.Inconclusive("the peer's subscription to the DeviceDiagnosis feature was not accepted (%d subscriptions)", n)
+		want := 1
+		if e.mute != nil {
+			want = 2
+		}
+		if n := len(e.w.Local.SubscriptionManager().SubscriptionsOnFeature(*e.dd.Address())); n != want {
+			c.Inconclusive("the peer's subscription to the DeviceDiagnosis feature was not accepted (%d subscriptions, expected %d)", n, want)
 		}
 	}
 	return e
@@ -264,6 +308,9 @@ func (e *c16Env) close() {
 	rig.Guard(10*time.Second, func() { e.hm.StopHeartbeat() })
 	rig.WaitFor(5*time.Second, func() bool { return e.live() == 0 })
 	e.h.Uninstall()
+	if e.mute != nil {
+		e.w.Local.RemoveRemoteDeviceConnection(e.mute.Ski) // World.Close does not know this peer
+	}
 	e.w.Close()
 }
 
@@ -419,19 +466,33 @@ func (e *c16Env) provableAfter(s int64) (n int, detail []string) {
 // refreshes, then judges "never two live streams that both tick".
 func (e *c16Env) checkpointRunning(op string, s int64, v0 uint64, v0ok bool, subscribed bool, k int) {
 	limit := time.Duration(k+2)*e.period*4 + 15*time.Second
+	lost := ""
 	ok := rig.WaitFor(limit, func() bool {
 		if subscribed {
-			byG, _ := e.after(s)
+			byG, total := e.after(s)
 			for _, n := range byG {
 				if n >= k {
 					return true
 				}
+			}
+			// refreshes that became visible in the function data since s but whose notifies did not enter the
+			// subscribed peer's writer (beyond the one each live stream may have in flight): waiting longer is
+			// pointless. No verdict here: oracle (3) in finish() judges every sampled refresh.
+			if v, has := e.counter(); has && v0ok && v > v0 && int(v-v0)-total >= 3+e.live() {
+				lost = fmt.Sprintf("the heartbeat counter in DataCopy went from %d to %d while %d notifies entered the subscribed peer's writer", v0, v, total)
+				return true
 			}
 			return false
 		}
 		v, has := e.counter()
 		return has && v0ok && v >= v0+uint64(k)
 	})
+	if lost != "" {
+		e.lost = true
+		e.undecided++
+		e.note("checkpoint running after %s (seq %d) given up: %s", op, s, lost)
+		return
+	}
 	if !ok {
 		e.undecided++
 		e.c.Inconclusive("after %s the heartbeat should run but fewer than %d refreshes were observed within %s (history: %s)", op, k, limit, e.history())
@@ -649,7 +710,7 @@ func (e *c16Env) finish() {
 	for _, n := range ns {
 		notified[n.Counter] = true
 	}
-	if e.live() == 0 {
+	if e.live() == 0 && e.hasPeer {
 		// the last value sampled before RemoveEntity may belong to a refresh whose notification was
 		// overtaken by the removal of the subscriptions: only values followed by a later one are judged
 		var maxBefore uint64
@@ -673,11 +734,27 @@ func (e *c16Env) finish() {
 	e.mu.Lock()
 	c.Count("stream_goroutines", int64(len(e.streams)))
 	e.mu.Unlock()
+	if e.lost {
+		c.Count("cases_cut_short_because_refreshes_were_not_notified", 1)
+	}
 	c.Count("checkpoints_running", int64(e.runningCP))
 	c.Count("checkpoints_stopped", int64(e.stoppedCP))
 	if c.Failed() {
 		c.Witness(e.sample())
 	}
+}
+
+// bailLost ends a case whose first running checkpoint found refreshes that were not notified: the entity is
+// removed, the streams end, finish() judges oracle (3).
+func (e *c16Env) bailLost(shape string) {
+	e.call("remove", "main")
+	s := rig.Seq()
+	v0, v0ok := e.counter()
+	e.checkpointStopped("remove", s, v0, v0ok, 0)
+	e.finish()
+	e.c.Shape(shape)
+	e.c.NonTrivial(false)
+	e.c.Sample(e.sample())
 }
 
 func (e *c16Env) sample() map[string]any {
@@ -696,16 +773,24 @@ func (e *c16Env) sample() map[string]any {
 		}
 		hb = append(hb, fmt.Sprintf("seq %d-%d g%d counter=%d ts=%s timeout=%s", n.Seq, n.Done, n.Goid, n.Counter, n.TS.Format("15:04:05"), n.Timeout))
 	}
-	return map[string]any{"timeout": e.timeout.String(), "history": e.history(), "periods_chosen": ps, "checkpoints": tr, "notifies": hb}
+	return map[string]any{"timeout": e.timeout.String(), "mute_first_subscriber": e.mute != nil, "observed_subscriber": e.hasPeer, "history": e.history(), "periods_chosen": ps, "checkpoints": tr, "notifies": hb}
 }
 
 // ---------------------------------------------------------------------------
 // seq
 
+// c16SeqFlavors: rows of five cases (one per timeout). Four rows of generated histories, one row of history (a)
+// "restart-after-remove" (AddEntity, add, RemoveEntity, StartHeartbeat, RemoveEntity again: the second removal meets
+// an entity that is no longer in the device's list) and one row of history (b) "never-added" (NewEntityLocal, add -
+// which starts the heartbeat -, RemoveEntity without any AddEntity).
+var c16SeqFlavors = []string{"generated", "generated", "generated", "generated", "restart-after-remove", "never-added"}
+
 func c16Seq(c *rig.Ctx) {
 	r := c.Rand
 	timeout := c16Timeouts[c.Index%len(c16Timeouts)]
-	e := newC16Env(c, timeout, true)
+	flavor := c16SeqFlavors[(c.Index/len(c16Timeouts))%len(c16SeqFlavors)]
+	opt := c16Opt{peer: flavor != "never-added", mute: c.Index%2 == 1, unadded: flavor == "never-added"}
+	e := newC16EnvOpt(c, timeout, opt)
 	defer e.close()
 	e.startSampler()
 	added, running, removed := false, false, false
@@ -741,11 +826,12 @@ func c16Seq(c *rig.Ctx) {
 		}
 		shape = append(shape, "|")
 		if running {
-			e.checkpointRunning(op, s, v0, v0ok, !removed, k)
+			e.checkpointRunning(op, s, v0, v0ok, e.hasPeer && !removed, k)
 		} else if added {
 			e.checkpointStopped(op, s, v0, v0ok, 0)
 		}
 	}
+	goOn := func() bool { return !c.Failed() && !e.lost }
 	// before the function exists only Stop and IsRunning are generated (Start there: part nofeature)
 	if r.Intn(2) == 0 {
 		for n := 1 + r.Intn(3); n > 0; n-- {
@@ -753,63 +839,129 @@ func c16Seq(c *rig.Ctx) {
 		}
 	}
 	do("add")
-	if e.period <= 300*time.Millisecond {
-		// a long uninterrupted run for the effective-period oracle
-		s := rig.Seq()
-		v0, v0ok := e.counter()
-		shape = append(shape, "|")
-		e.checkpointRunning("add", s, v0, v0ok, true, 8)
-	} else {
-		checkpoint("add")
-	}
-	bursts := 3
-	switch {
-	case e.period >= 2*time.Second:
-		bursts = c.Pick(0, 2)
-	case e.period >= time.Second:
-		bursts = c.Pick(1, 3)
-	case e.period >= 500*time.Millisecond:
-		bursts = c.Pick(2, 4)
-	default:
-		bursts = c.Pick(3, 5) + r.Intn(2)
-	}
-	for b := 0; b < bursts && !c.Failed(); b++ {
-		last := ""
-		for n := 1 + r.Intn(4); n > 0; n-- {
-			x := r.Intn(100)
-			switch {
-			case x < 36:
-				last = "start"
-			case x < 66:
-				last = "stop"
-			case x < 86:
-				last = "isrunning"
-			case x < 91:
-				last = "add"
-			case !removed && b >= bursts-2:
-				last = "remove"
-			default:
-				last = "stop"
+	switch flavor {
+	case "restart-after-remove":
+		// the long periods judge only the second half (restart, second removal) in the quick tier
+		full := e.period < 2*time.Second || c.Thorough()
+		if full {
+			checkpoint("add")
+		}
+		for n := r.Intn(3); n > 0 && goOn(); n-- {
+			do([]string{"isrunning", "stop", "start", "start"}[r.Intn(4)])
+		}
+		if goOn() {
+			do("remove") // the entity is in the device's list: the ordinary removal
+			if r.Intn(3) == 0 {
+				do("isrunning")
 			}
-			do(last)
+			if full {
+				checkpoint("remove")
+			}
 		}
-		_ = last
-		checkpoint(decider)
-	}
-	if !c.Failed() {
-		if !removed {
+		if goOn() {
+			do("start") // the heartbeat runs again, on an entity that is not part of the device any more
+			if r.Intn(3) == 0 {
+				do("isrunning")
+			}
+			checkpoint("start-after-remove")
+		}
+		if goOn() {
+			do("remove") // ... and this removal must stop it as well
+			if r.Intn(2) == 0 {
+				do("isrunning")
+			}
+			checkpoint("remove-after-remove")
+			c.Count("removals_of_an_entity_not_in_the_device_judged", 1)
+		}
+	case "never-added":
+		checkpoint("add") // AddFunctionType started the heartbeat although the entity was never added
+		for n := r.Intn(3); n > 0 && goOn(); n-- {
+			do([]string{"isrunning", "stop", "start", "start"}[r.Intn(4)])
+		}
+		if goOn() && !running {
+			do("start")
+		}
+		if goOn() {
 			do("remove")
-			checkpoint("remove")
-		} else if running {
-			do("stop")
-			checkpoint("stop")
+			if r.Intn(2) == 0 {
+				do("isrunning")
+			}
+			checkpoint("remove-never-added")
+			c.Count("removals_of_an_entity_not_in_the_device_judged", 1)
 		}
+		if goOn() && (e.period < time.Second || c.Thorough()) && r.Intn(2) == 0 {
+			do("start")
+			checkpoint("start-after-remove")
+			if goOn() {
+				do("remove")
+				checkpoint("remove-never-added")
+				c.Count("removals_of_an_entity_not_in_the_device_judged", 1)
+			}
+		}
+	default:
+		if e.period <= 300*time.Millisecond {
+			// a long uninterrupted run for the effective-period oracle
+			s := rig.Seq()
+			v0, v0ok := e.counter()
+			shape = append(shape, "|")
+			e.checkpointRunning("add", s, v0, v0ok, true, 8)
+		} else {
+			checkpoint("add")
+		}
+		bursts := 3
+		switch {
+		case e.period >= 2*time.Second:
+			bursts = c.Pick(0, 2)
+		case e.period >= time.Second:
+			bursts = c.Pick(1, 3)
+		case e.period >= 500*time.Millisecond:
+			bursts = c.Pick(2, 4)
+		default:
+			bursts = c.Pick(3, 5) + r.Intn(2)
+		}
+		for b := 0; b < bursts && goOn(); b++ {
+			for n := 1 + r.Intn(4); n > 0; n-- {
+				x := r.Intn(100)
+				op := "stop"
+				switch {
+				case x < 36:
+					op = "start"
+				case x < 66:
+					op = "stop"
+				case x < 86:
+					op = "isrunning"
+				case x < 91:
+					op = "add"
+				case b >= bursts-2 && (!removed || x < 95):
+					op = "remove" // also a second time, after the heartbeat was restarted on the removed entity
+				}
+				do(op)
+			}
+			checkpoint(decider)
+		}
+		if !c.Failed() {
+			if !removed {
+				do("remove")
+				checkpoint("remove")
+			} else if running {
+				op := []string{"stop", "remove"}[r.Intn(2)]
+				do(op)
+				checkpoint(op)
+			}
+		}
+	}
+	if e.lost && running && !c.Failed() {
+		do("remove") // the streams must have ended before oracle (3) is judged
+		checkpoint("remove")
 	}
 	e.finish()
-	c.Shape(fmt.Sprintf("%s %s", timeout, strings.Join(shape, " ")))
+	c.Shape(fmt.Sprintf("%s %s mute=%v %s", timeout, flavor, e.mute != nil, strings.Join(shape, " ")))
 	c.NonTrivial(e.runningCP > 0 && e.stoppedCP > 0 && e.undecided == 0)
 	c.Seen("timeouts", timeout.String())
-	c.Sample(e.sample())
+	c.Count("seq_histories:"+flavor, 1)
+	sm := e.sample()
+	sm["flavor"] = flavor
+	c.Sample(sm)
 }
 
 // ---------------------------------------------------------------------------
@@ -818,7 +970,8 @@ func c16Seq(c *rig.Ctx) {
 func c16Conc(c *rig.Ctx) {
 	r := c.Rand
 	timeout := []time.Duration{100 * time.Millisecond, 300 * time.Millisecond, 100 * time.Millisecond, 300 * time.Millisecond, 100 * time.Millisecond, 2500 * time.Millisecond}[c.Index%6]
-	e := newC16Env(c, timeout, true)
+	// a mute first subscriber in every second case, independent of the timeout (the index runs through six timeouts)
+	e := newC16EnvOpt(c, timeout, c16Opt{peer: true, mute: (c.Index/6+c.Index)%2 == 1})
 	defer e.close()
 	e.startSampler()
 	policy := []string{"rendezvous-stop", "rendezvous-start", "rendezvous-both", "jitter", "rendezvous-both+jitter"}[r.Intn(5)]
@@ -839,6 +992,10 @@ func c16Conc(c *rig.Ctx) {
 		s := rig.Seq()
 		v0, ok := e.counter()
 		e.checkpointRunning("add", s, v0, ok, true, 2)
+	}
+	if e.lost {
+		e.bailLost(fmt.Sprintf("%s %s cut short", timeout, policy))
+		return
 	}
 	ng := 4 + r.Intn(5)
 	lists := make([][]string, ng)
@@ -934,7 +1091,7 @@ func c16Conc(c *rig.Ctx) {
 		e.checkpointStopped("remove", s, v0, v0ok, 0)
 	}
 	e.finish()
-	c.Shape(fmt.Sprintf("%s %s %s final=%s", timeout, policy, strings.Join(shape, "|"), final))
+	c.Shape(fmt.Sprintf("%s %s mute=%v %s final=%s", timeout, policy, e.mute != nil, strings.Join(shape, "|"), final))
 	c.NonTrivial(e.runningCP > 0 && e.stoppedCP > 0 && e.undecided == 0)
 	c.Seen("timeouts", timeout.String())
 	c.Seen("hook_policies", policy)
@@ -950,7 +1107,7 @@ func c16Conc(c *rig.Ctx) {
 
 func c16SlowTap(c *rig.Ctx) {
 	timeout := []time.Duration{100 * time.Millisecond, 200 * time.Millisecond}[c.Index%2]
-	e := newC16Env(c, timeout, true)
+	e := newC16EnvOpt(c, timeout, c16Opt{peer: true, mute: (c.Index/2)%2 == 1})
 	defer e.close()
 	e.noGapOracle = true
 	e.startSampler()
@@ -959,6 +1116,10 @@ func c16SlowTap(c *rig.Ctx) {
 		s := rig.Seq()
 		v0, ok := e.counter()
 		e.checkpointRunning("add", s, v0, ok, true, 2)
+	}
+	if e.lost {
+		e.bailLost(fmt.Sprintf("slowtap %s cut short", timeout))
+		return
 	}
 	trials := c.Pick(4, 12)
 	hold := e.period*5/2 + 20*time.Millisecond
@@ -996,7 +1157,7 @@ func c16SlowTap(c *rig.Ctx) {
 		e.checkpointRunning("start", s, v0, v0ok, true, 2)
 	}
 	e.finish()
-	c.Shape(fmt.Sprintf("slowtap %s trials=%d", timeout, trials))
+	c.Shape(fmt.Sprintf("slowtap %s trials=%d mute=%v", timeout, trials, e.mute != nil))
 	c.NonTrivial(e.runningCP > 0 && (e.stoppedCP > 0 || c.Failed()) && e.undecided == 0)
 	c.Sample(e.sample())
 }
